@@ -54,6 +54,18 @@ def mutate_source(rng, src):
     return src[:m.start(1)] + rng.choice(["+", "-", "*", "<", ">"]) + src[m.end(1):]
 
 
+def srng_shuffle(rng, xs):
+    for i in range(len(xs) - 1, 0, -1):
+        j = rng.below(i + 1); xs[i], xs[j] = xs[j], xs[i]
+    return xs
+
+
+def sched_tick_closure(src):
+    """class predicate of C11's finding (WASM: a closure handed to `@` while a sample is processed lives at the bump pointer and is
+    overwritten): a task that schedules a task from inside a running task"""
+    return re.search(r"fn t\d+\(\)\{[^}]*@\(now", src) is not None
+
+
 def src_classes(src):
     """class predicates of known findings evaluated on source text (for shipped / mutated sources)"""
     c = set()
@@ -118,6 +130,43 @@ def run(ck):
             mw = [s['out'] if s else None for s in m['wasm']]
             if mv != mw:
                 disag.append(("Lmmm VmD and WasmD machines differ on a wf program", src))
+
+    # ---------- (1b) scheduler programs whose tasks do NOT commute: same-time tasks, chains, tasks scheduled by tasks ----------
+    srng = ck.rng.fork("sched")
+    sreqs = []
+    OPS = ["x = x + {c}", "x = x * {c}", "x = {c} - x", "x = x * {c} + 1.0", "x = max(x, {c}) - 1.0", "x = 0.0 - x"]
+    for si in range(60 if quick else 600):
+        ntask = srng.range(2, 7)
+        lines = ["let x = 0.0"]
+        for ti in range(ntask):
+            body = srng.choice(OPS).format(c="%d.0" % srng.range(2, 9))
+            resched = ""
+            if srng.chance(1, 3):
+                resched = "\n    t%d@(now+%d.0)" % (ti, srng.range(1, 3))
+            lines.append("fn t%d(){\n    %s%s\n}" % (ti, body, resched))
+        times = [srng.range(1, 4) for _ in range(ntask)]
+        if srng.chance(1, 2):
+            times = [times[0]] * ntask          # all at the same sample
+        for ti in srng_shuffle(srng, list(range(ntask))):
+            lines.append("t%d@%d.0" % (ti, times[ti]))
+        lines.append("fn dsp(){\n    x\n}")
+        sreqs.append({"src": "\n".join(lines) + "\n", "n": 10, "state": False, "sched": True})
+    sres = run_impl(iexe, sreqs)
+    for rq, r in zip(sreqs, sres):
+        if 'crash' in r:
+            viol.append(("harness process died on a scheduler program", rq['src'], {"rc": str(r['crash'])})); continue
+        a, b = backend_summary(r.get('vm')), backend_summary(r.get('wasm'))
+        if a == b:
+            bump("sched_vm_equals_wasm")
+            if a[0] == 'ok': distinct.add(rq['src'])
+        elif "must be in the future" in str(a) + str(b):
+            bump("sched_premise_violated_skipped")
+        else:
+            hit = [c for c in ("F13w",) if c in findings and sched_tick_closure(rq['src'])]
+            if hit:
+                bump("sched_diff_in_known_class_" + hit[0]); ck.known(findings[hit[0]], rq['src'].replace("\n", " ")[:140])
+            else:
+                viol.append(("VM and WASM differ on a scheduler program (order or time of task execution)", rq['src'], {"vm": str(a)[:300], "wasm": str(b)[:300], "n": 10, "sched": True}))
 
     # ---------- (2) shipped sources and mutations: VM vs WASM ----------
     files = sorted(glob.glob(REPO + "/examples/*.mmm") + glob.glob(REPO + "/lib/*.mmm") +
